@@ -1594,7 +1594,16 @@ class LinearOperator(object):
         else:
             raise RuntimeError("Invalid arguments {} to expand.".format(sizes))
 
-        res = self._expand_batch(batch_shape=shape[:-2])
+        # A batch size of -1 keeps the size of that (existing) dimension
+        batch_shape = list(shape[:-2])
+        num_new_dims = len(batch_shape) - len(self.batch_shape)
+        for i, size in enumerate(batch_shape):
+            if size == -1:
+                if i < num_new_dims:
+                    raise RuntimeError("Invalid expand arguments {}: -1 is not allowed for a new dimension.".format(sizes))
+                batch_shape[i] = self.batch_shape[i - num_new_dims]
+
+        res = self._expand_batch(batch_shape=torch.Size(batch_shape))
         return res
 
     def float(
